@@ -209,3 +209,33 @@ func VerifC19TemplateRoundTrip() {
 	vrt.Assert("C19.fmt.directive-and-value-survive-the-rewrite", hSameStrings(v1, t.get(c2)))
 	vrt.Assert("C19.fmt.same-number-of-routes", len(c1.Routes) == len(c2.Routes))
 }
+
+// verif:harness props=C19 tier=quick native=yes weight=120
+// verif:bounds the same Parse -> Format -> Parse round trip on 4 templates (thorough 8) with a QUOTED value hole "a" + two ARBITRARY bytes (all 256 values each: valid multi-byte UTF-8, invalid UTF-8, Latin-1, NUL...) — texts the real parser rejects are out of scope; what it accepts must keep its exact bytes through the rewrite
+func VerifC19NonASCIIQuotedRoundTrip() {
+	nt := 4
+	if vrt.Thorough() {
+		nt = len(hTemplates)
+	}
+	t := hTemplates[vrt.Choose("template", nt)]
+	b1, b2 := vrt.Byte("b1"), vrt.Byte("b2")
+	vrt.Assume(b1 >= 0x80 || b2 >= 0x80) // (pure ASCII: VerifC19TemplateRoundTrip)
+	h := "a" + string([]byte{b1, b2})
+	src := strings.Replace(t.src, "%H", hQuote(h), 1)
+	c1, err := Parse([]byte(src))
+	if err != nil {
+		vrt.Cover("nonascii.parser-refuses")
+		return
+	}
+	vrt.Cover("nonascii.parsed")
+	f1, err := Format(c1)
+	vrt.Assert("C19.nonascii.formats", err == nil)
+	c2, err := Parse(f1)
+	vrt.Assert("C19.nonascii.formatted-text-parses-again", err == nil)
+	if err != nil {
+		return
+	}
+	f2, _ := Format(c2)
+	vrt.Assert("C19.nonascii.formatting-twice-changes-nothing", string(f1) == string(f2))
+	vrt.Assert("C19.nonascii.value-keeps-its-exact-bytes", hSameStrings(t.get(c1), t.get(c2)))
+}
